@@ -17,6 +17,8 @@ import (
 
 func init() { register("C10", runC10, replayC10) }
 
+var c10Arr simdjson.Array
+
 var negZeroTok = regexp.MustCompile(`(^|[\[,:])-0([,\]}]|$)`)
 
 func stripNegZero(t []byte) []byte {
@@ -175,7 +177,7 @@ func (w *W) c10Check(pj *simdjson.ParsedJson, want []*ref.Value, cs *ev.Case, ct
 				if err != nil {
 					return err
 				}
-				a, err := it.Array(nil)
+				a, err := it.Array(&c10Arr) // a recycled destination (other documents, other string modes)
 				if err != nil {
 					return err
 				}
